@@ -20,6 +20,7 @@ from pySDC.implementations.problem_classes.TestEquation_0D import testequation0d
 from pySDC.implementations.sweeper_classes.generic_implicit import generic_implicit
 
 PID = 'C09'
+BOUNDS = {'quick': dict(state_machine_NP='1..3', histories='NP<=3, max_restarts<=2, <=5 steps', order='1..5'), 'thorough': dict(state_machine_NP='1..4', histories='NP<=4, max_restarts<=3, <=6 steps', order='1..5')}
 DT = 0.125  # exactly representable: accepted start times are exact multiples
 
 
